@@ -53,6 +53,9 @@ type gl struct {
 	structLoc map[types.Object][]string   // struct-pointer locals -> field names
 	nScan     int
 	rdLoopVar string
+	wrParam   string // name of the io.Writer parameter when translating a Write method
+	iterRead  string // translated read function used by the iter method being translated
+	iterRec   string
 	funcs   map[string]*glFunc
 	order   []string
 }
@@ -629,8 +632,14 @@ func (g *gl) assignTo(w *wr, lhs ast.Expr, tok token.Token, rhs ast.Expr) {
 }
 
 func (g *gl) stmt(w *wr, s ast.Stmt) {
+	if g.iterStmt(w, s) {
+		return
+	}
 	switch v := s.(type) {
 	case *ast.AssignStmt:
+		if _, ok := g.fprintfStmt(w, v); ok {
+			return
+		}
 		if v.Tok == token.DEFINE {
 			if len(v.Lhs) != 1 || len(v.Rhs) != 1 {
 				g.die(v, "multi-value :=")
@@ -746,6 +755,10 @@ func (g *gl) stmt(w *wr, s ast.Stmt) {
 			}
 		}
 	case *ast.ReturnStmt:
+		if g.rdKind == "write" && len(v.Results) == 1 {
+			w.line("return (" + g.expr(v.Results[0]).opnd() + ", " + g.wrParam + ")")
+			return
+		}
 		if g.rdKind != "" && len(v.Results) == 2 {
 			var rec string
 			switch r := v.Results[0].(type) {
@@ -817,7 +830,13 @@ func (g *gl) block(w *wr, list []ast.Stmt) {
 
 func (g *gl) ifStmt(w *wr, v *ast.IfStmt, kw string) {
 	if v.Init != nil {
-		g.die(v, "if with init")
+		a, ok := v.Init.(*ast.AssignStmt)
+		if !ok || kw != "if " {
+			g.die(v, "if with init")
+		}
+		if _, ok := g.fprintfStmt(w, a); !ok {
+			g.die(v, "if with init")
+		}
 	}
 	// `if !yield(x) { return }` inside an iter.Seq closure
 	if g.yieldT != "" {
@@ -1268,6 +1287,302 @@ func (g *gl) readerMethod(lname, recvType, method, field, kind, rel, recT, place
 	})
 }
 
+// fprintfBytes turns the arguments of fmt.Fprintf(w, "literal %s %d …", args…) into the Lean term for
+// the bytes of that ONE Write call.  Only the verbs whose output the model can state exactly.
+func (g *gl) fprintfBytes(c *ast.CallExpr) string {
+	tv, ok := g.info.Types[c.Args[1]]
+	if !ok || tv.Value == nil || tv.Value.Kind() != constant.String {
+		g.die(c, "Fprintf with a non-constant format")
+	}
+	format := constant.StringVal(tv.Value)
+	args := c.Args[2:]
+	var parts []string
+	lit := []byte{}
+	flush := func() {
+		if len(lit) > 0 {
+			parts = append(parts, bytesLit(lit))
+			lit = []byte{}
+		}
+	}
+	ai := 0
+	for i := 0; i < len(format); i++ {
+		ch := format[i]
+		if ch != '%' {
+			lit = append(lit, ch)
+			continue
+		}
+		i++
+		if i >= len(format) {
+			g.die(c, "format ends in %")
+		}
+		if format[i] == '%' {
+			lit = append(lit, '%')
+			continue
+		}
+		if ai >= len(args) {
+			g.die(c, "too few Fprintf arguments")
+		}
+		a := args[ai]
+		ai++
+		at := g.typeOf(a)
+		x := g.expr(a)
+		switch verb := format[i]; {
+		case (verb == 's') && isList(at):
+			flush()
+			parts = append(parts, x.opnd())
+		case verb == 'v' && isList(at) && func() bool { b, ok := at.Underlying().(*types.Basic); return ok && b.Kind() == types.String }():
+			flush()
+			parts = append(parts, x.opnd())
+		case (verb == 'v' || verb == 'd') && isInt(at):
+			flush()
+			parts = append(parts, "itoa "+x.arg())
+		case (verb == 'v' || verb == 'd') && isByte(at):
+			flush()
+			parts = append(parts, "itoa ("+x.opnd()+".toNat : Int)")
+		default:
+			g.die(c, fmt.Sprintf("Fprintf verb %%%c with %s", verb, at))
+		}
+	}
+	flush()
+	if ai != len(args) {
+		g.die(c, "too many Fprintf arguments")
+	}
+	if len(parts) == 0 {
+		return "[]"
+	}
+	return strings.Join(parts, " ++ ")
+}
+
+// `_, err := fmt.Fprintf(w, …)` / `if _, err := fmt.Fprintf(w, …); err != nil {…}`: the call, as the Lean lines
+// that perform the write on the mutable writer `w`; returns the name bound to the error.
+func (g *gl) fprintfStmt(w *wr, a *ast.AssignStmt) (string, bool) {
+	if g.wrParam == "" || a.Tok != token.DEFINE || len(a.Lhs) != 2 || len(a.Rhs) != 1 {
+		return "", false
+	}
+	c, ok := a.Rhs[0].(*ast.CallExpr)
+	if !ok || len(c.Args) < 2 {
+		return "", false
+	}
+	sel, ok := c.Fun.(*ast.SelectorExpr)
+	if !ok || sel.Sel.Name != "Fprintf" {
+		return "", false
+	}
+	pk, ok := sel.X.(*ast.Ident)
+	if !ok {
+		return "", false
+	}
+	if pn, ok := g.info.Uses[pk].(*types.PkgName); !ok || pn.Imported().Path() != "fmt" {
+		return "", false
+	}
+	if id, ok := c.Args[0].(*ast.Ident); !ok || id.Name != g.wrParam {
+		g.die(c, "Fprintf to something other than the writer parameter")
+	}
+	n, ok1 := a.Lhs[0].(*ast.Ident)
+	e, ok2 := a.Lhs[1].(*ast.Ident)
+	if !ok1 || !ok2 || n.Name != "_" {
+		g.die(a, "Fprintf result list")
+	}
+	k := g.nScan
+	g.nScan++
+	w.line(fmt.Sprintf("let (w%d, %s) := wrWrite %s (%s)", k, e.Name, g.wrParam, g.fprintfBytes(c)))
+	w.line(fmt.Sprintf("%s := w%d", g.wrParam, k))
+	return e.Name, true
+}
+
+// writerMethod translates `func (f *T) Write(w io.Writer) error` of a record type: the receiver's fields
+// become parameters `f_<Field>`, the writer the abstract `Wr`; the result is (error, writer afterwards).
+func (g *gl) writerMethod(lname, recvType, method, rel, placeholder string) {
+	g.guarded(lname, placeholder, func() (string, []string) {
+		var fd *ast.FuncDecl
+		file := ""
+		for _, f := range g.files {
+			for _, d := range f.Decls {
+				if x, ok := d.(*ast.FuncDecl); ok && x.Name.Name == method && x.Recv != nil && len(x.Recv.List) == 1 && len(x.Recv.List[0].Names) == 1 {
+					if st, ok := x.Recv.List[0].Type.(*ast.StarExpr); ok {
+						if id, ok := st.X.(*ast.Ident); ok && id.Name == recvType {
+							fd, file = x, filepath.Base(g.fset.Position(x.Pos()).Filename)
+						}
+					}
+				}
+			}
+		}
+		if fd == nil || fd.Body == nil || len(fd.Type.Params.List) != 1 || len(fd.Type.Params.List[0].Names) != 1 {
+			g.die(nil, "method not found")
+		}
+		g.findMutated(fd.Body)
+		g.yieldT, g.curFunc, g.lits, g.nScan = "", lname, nil, 0
+		g.rdKind = "write"
+		g.wrParam = fd.Type.Params.List[0].Names[0].Name
+		g.rdState = g.wrParam
+		defer func() { g.rdKind, g.curFunc, g.wrParam = "", "", "" }()
+		g.structLoc = map[types.Object][]string{}
+		rn := fd.Recv.List[0].Names[0]
+		robj := g.info.Defs[rn]
+		st, ok := robj.Type().(*types.Pointer).Elem().Underlying().(*types.Struct)
+		if !ok {
+			g.die(fd, "receiver is not a struct pointer")
+		}
+		var fs, params []string
+		for i := 0; i < st.NumFields(); i++ {
+			f := st.Field(i)
+			fs = append(fs, f.Name())
+			params = append(params, "("+rn.Name+"_"+f.Name()+" : "+g.leanType(f.Type())+")")
+		}
+		g.structLoc[robj] = fs
+		w := &wr{b: &bytes.Buffer{}, ind: 1}
+		w.line("let mut " + g.wrParam + " := " + g.wrParam)
+		g.block(w, fd.Body.List)
+		globals := g.sortedGlobals()
+		all := strings.TrimSpace(g.globalParams(globals) + " " + strings.Join(params, " ") + " (" + g.wrParam + " : Wr)")
+		text := fmt.Sprintf("def %s_Found : Bool := true\n%s/-- translated from (*%s).%s in %s/%s; the io.Writer accepts `room` more bytes, then fails -/\ndef %s %s : Option (GoErr × Wr) := do\n%s",
+			lname, strings.Join(g.lits, ""), recvType, method, rel, file, lname, all, w.b.String())
+		return text, globals
+	})
+}
+
+// iterMethod translates `func (r *reader) iter() iter.Seq2[*T, error]` whose closure is an unbounded
+// `for { x, err := r.read(); … }` loop around the (already translated) read method.  The loop gets a
+// fuel parameter; running out of fuel is `none` (no claim), so theorems must show the fuel suffices.
+// The result is the log of (record-or-none, error) pairs handed to the consumer `yield`.
+func (g *gl) iterMethod(lname, readName, recvType, method, kind, rel, recT, placeholder string) {
+	g.guarded(lname, placeholder, func() (string, []string) {
+		rd, ok := g.funcs[readName]
+		if !ok || !rd.found {
+			g.die(nil, "the read method was not translated")
+		}
+		var fd *ast.FuncDecl
+		file := ""
+		for _, f := range g.files {
+			for _, d := range f.Decls {
+				if x, ok := d.(*ast.FuncDecl); ok && x.Name.Name == method && x.Recv != nil && len(x.Recv.List) == 1 && len(x.Recv.List[0].Names) == 1 {
+					if st, ok := x.Recv.List[0].Type.(*ast.StarExpr); ok {
+						if id, ok := st.X.(*ast.Ident); ok && id.Name == recvType {
+							fd, file = x, filepath.Base(g.fset.Position(x.Pos()).Filename)
+						}
+					}
+				}
+			}
+		}
+		if fd == nil || fd.Body == nil || len(fd.Body.List) != 1 {
+			g.die(nil, "method not found")
+		}
+		ret, ok := fd.Body.List[0].(*ast.ReturnStmt)
+		if !ok || len(ret.Results) != 1 {
+			g.die(fd, "iter body")
+		}
+		fl, ok := ret.Results[0].(*ast.FuncLit)
+		if !ok || len(fl.Type.Params.List) != 1 || len(fl.Type.Params.List[0].Names) != 1 || fl.Type.Params.List[0].Names[0].Name != "yield" || len(fl.Body.List) != 1 {
+			g.die(fd, "iter closure")
+		}
+		loop, ok := fl.Body.List[0].(*ast.ForStmt)
+		if !ok || loop.Init != nil || loop.Cond != nil || loop.Post != nil {
+			g.die(fd, "iter loop")
+		}
+		g.findMutated(fl.Body)
+		g.yieldT, g.curFunc, g.lits, g.nScan = "", lname, nil, 0
+		g.rdKind, g.rdRecv = "iter", fd.Recv.List[0].Names[0].Name
+		g.iterRead, g.iterRec = readName, "Option ("+recT+") × GoErr"
+		g.structLoc = map[types.Object][]string{}
+		defer func() { g.rdKind, g.curFunc = "", "" }()
+		st, stT := "src", "List UInt8"
+		if kind == "lines" {
+			st, stT = "lines", "List (List UInt8)"
+		}
+		g.rdState = st
+		w := &wr{b: &bytes.Buffer{}, ind: 1}
+		w.line("let mut log : List (" + g.iterRec + ") := []")
+		w.line("let mut " + st + " := " + st)
+		w.line("let mut outOfFuel := true")
+		w.line("for _ in List.range fuel do")
+		w.ind++
+		g.block(w, loop.Body.List)
+		w.ind--
+		w.line("if outOfFuel then")
+		w.ind++
+		w.line("(none : Option Unit)")
+		w.ind--
+		w.line("return log")
+		text := fmt.Sprintf("def %s_Found : Bool := true\n/-- translated from (*%s).%s in %s/%s; `fuel` bounds the `for {}` loop (out of fuel = `none`), `yield` is the consumer, the result the log of items handed to it -/\ndef %s (fuel : Nat) (%s : %s) (ending : Ending) (yield : %s → Bool) : Option (List (%s)) := do\n%s",
+			lname, recvType, method, rel, file, lname, st, stT, g.iterRec, g.iterRec, w.b.String())
+		return text, nil
+	})
+}
+
+// in an iter closure: `x, err := r.read()`, `yield(a, b)`, `break`, `return`
+func (g *gl) iterStmt(w *wr, s ast.Stmt) bool {
+	if g.rdKind != "iter" {
+		return false
+	}
+	yieldArgs := func(c *ast.CallExpr) (string, bool) {
+		id, ok := c.Fun.(*ast.Ident)
+		if !ok || id.Name != "yield" || len(c.Args) != 2 {
+			return "", false
+		}
+		rec := ""
+		if a, ok := c.Args[0].(*ast.Ident); ok {
+			if a.Name == "nil" {
+				rec = "none"
+			} else {
+				rec = a.Name
+			}
+		}
+		if rec == "" {
+			g.die(c, "yield argument")
+		}
+		return "(" + rec + ", " + g.expr(c.Args[1]).opnd() + ")", true
+	}
+	switch v := s.(type) {
+	case *ast.AssignStmt:
+		if v.Tok == token.DEFINE && len(v.Lhs) == 2 && len(v.Rhs) == 1 {
+			if c, ok := v.Rhs[0].(*ast.CallExpr); ok && len(c.Args) == 0 {
+				if sel, ok := c.Fun.(*ast.SelectorExpr); ok && sel.Sel.Name == "read" {
+					if id, ok := sel.X.(*ast.Ident); ok && id.Name == g.rdRecv {
+						a, b := v.Lhs[0].(*ast.Ident).Name, v.Lhs[1].(*ast.Ident).Name
+						k := g.nScan
+						g.nScan++
+						w.line(fmt.Sprintf("let ((%s, %s), st%d) ← %s %s ending", a, b, k, g.iterRead, g.rdState))
+						w.line(fmt.Sprintf("%s := st%d", g.rdState, k))
+						return true
+					}
+				}
+			}
+		}
+	case *ast.ExprStmt:
+		if c, ok := v.X.(*ast.CallExpr); ok {
+			if item, ok := yieldArgs(c); ok { // result ignored by the Go code
+				w.line("log := log ++ [" + item + "]")
+				w.line("let _ := yield " + item)
+				return true
+			}
+		}
+	case *ast.BranchStmt:
+		if v.Tok == token.BREAK && v.Label == nil {
+			w.line("outOfFuel := false")
+			w.line("break")
+			return true
+		}
+	case *ast.ReturnStmt:
+		if len(v.Results) == 0 {
+			w.line("return log")
+			return true
+		}
+	case *ast.IfStmt:
+		if u, ok := v.Cond.(*ast.UnaryExpr); ok && u.Op == token.NOT && v.Init == nil && v.Else == nil {
+			if c, ok := u.X.(*ast.CallExpr); ok {
+				if item, ok := yieldArgs(c); ok {
+					w.line("log := log ++ [" + item + "]")
+					w.line("if !(yield " + item + ") then")
+					w.ind++
+					g.block(w, v.Body.List)
+					w.ind--
+					return true
+				}
+			}
+		}
+	}
+	return false
+}
+
 // an init function: the package-level variables it assigns become its result
 func (g *gl) initFunc(nth int, rel, placeholder string) {
 	name := fmt.Sprintf("init_%d", nth)
@@ -1490,6 +1805,19 @@ func goLean(repo, out string) {
 	g4.readerMethod("fastq_read", "reader", "read", "s", "lines", "formats/fastq", B+" × "+B+" × "+B,
 		"def fastq_read (lines : "+BB+") (ending : Ending) : Option ((Option ("+B+" × "+B+" × "+B+") × GoErr) × "+BB+") := none")
 	w.WriteString(g4.funcs["fastq_read"].text + "\n")
+	g3.iterMethod("fasta_iter", "fasta_read", "reader", "iter", "bytes", "formats/fasta", B+" × "+B,
+		"def fasta_iter (fuel : Nat) (src : "+B+") (ending : Ending) (yield : Option ("+B+" × "+B+") × GoErr → Bool) : Option (List (Option ("+B+" × "+B+") × GoErr)) := none")
+	w.WriteString(g3.funcs["fasta_iter"].text + "\n")
+	g4.iterMethod("fastq_iter", "fastq_read", "reader", "iter", "lines", "formats/fastq", B+" × "+B+" × "+B,
+		"def fastq_iter (fuel : Nat) (lines : "+BB+") (ending : Ending) (yield : Option ("+B+" × "+B+" × "+B+") × GoErr → Bool) : Option (List (Option ("+B+" × "+B+" × "+B+") × GoErr)) := none")
+	w.WriteString(g4.funcs["fastq_iter"].text + "\n")
+	// the Write methods of the two record types
+	g3.writerMethod("fasta_Write", "Fasta", "Write", "formats/fasta",
+		"def fasta_Write (f_Name : "+B+") (f_Sequence : "+B+") (w : Wr) : Option (GoErr × Wr) := none")
+	w.WriteString(g3.funcs["fasta_Write"].text + "\n")
+	g4.writerMethod("fastq_Write", "Fastq", "Write", "formats/fastq",
+		"def fastq_Write (f_Name : "+B+") (f_Sequence : "+B+") (f_Quals : "+B+") (w : Wr) : Option (GoErr × Wr) := none")
+	w.WriteString(g4.funcs["fastq_Write"].text + "\n")
 	fmt.Fprintln(w, "end Bio.Generated.GoSrc")
 	os.Remove(out)
 	if err := os.WriteFile(out, w.Bytes(), 0o644); err != nil {
